@@ -1,8 +1,11 @@
 #![allow(dead_code, unused_imports)]
+mod ast;
 mod corpus;
+mod eval;
 mod mon;
 mod pipe;
 mod pool;
+mod prog;
 mod props;
 mod reflex;
 mod refparse;
